@@ -31,6 +31,7 @@ import (
 	"sort"
 	"strconv"
 	"strings"
+	"sync/atomic"
 	"syscall"
 	"time"
 
@@ -212,6 +213,8 @@ func lastLines(s string, n int) string {
 	return strings.Join(l, " / ")
 }
 
+var sampled int32
+
 var reR2O = regexp.MustCompile(`^r2o\s+r\d+\s+o(\d+)$`)
 
 const useHDL = true
@@ -383,6 +386,9 @@ func features(p *gogen.Prog) []string {
 			f[s.Kind] = true
 			ex(s.E)
 			ex(s.E2)
+			for _, e := range s.Es {
+				ex(e)
+			}
 			if s.Init != nil {
 				st([]*gogen.Stmt{s.Init})
 			}
@@ -628,6 +634,9 @@ func candidates(p *gogen.Prog) []*gogen.Prog {
 			for _, s := range b {
 				ex(&s.E)
 				ex(&s.E2)
+				for i := range s.Es {
+					ex(&s.Es[i])
+				}
 				st(s.Body)
 				st(s.Else)
 				for _, c := range s.Cases {
@@ -894,7 +903,7 @@ func main() {
 			run.Count("hook_calls_observed", int64(sum(c.Sites)))
 			_ = lastSites
 			run.Nontrivial(p.Source())
-			if i < 2 {
+			if atomic.AddInt32(&sampled, 1) <= 2 {
 				run.Sample(map[string]any{"source": p.Source(), "inputs": in, "assembly_lines": strings.Count(c.Asm, "\n"), "schedules": len(scheds)})
 			}
 			return
